@@ -136,6 +136,8 @@ type (
 		resetStreamsDuringTaggingJob   bitmask.LongBitmask
 		addedStreamsDuringTaggingJob   bitmask.LongBitmask
 
+		changedStreamsDuringConverterJob bitmask.LongBitmask
+
 		streamsToConvert         map[string]*bitmask.LongBitmask
 		pcapProcessorWebhookUrls []string
 		pcapOverIPEndpoints      []*pcapOverIPEndpoint
@@ -666,6 +668,10 @@ func (mgr *Manager) importPcapJob(filenames []string, nextStreamID uint64, exist
 			changedStreams := updatedStreams.Copy()
 			changedStreams.Or(*resetStreams)
 			mgr.invalidateConverters(&changedStreams)
+			if mgr.converterJobRunning {
+				// the running job works on the old indexes and might still convert the old data of these streams
+				mgr.changedStreamsDuringConverterJob.Or(changedStreams)
+			}
 		}
 		// remove finished job from queue
 		mgr.importJobs = mgr.importJobs[processedFiles:]
@@ -1469,6 +1475,7 @@ func (mgr *Manager) startConverterJobIfNeeded() {
 		return
 	}
 	indexes, releaser := mgr.getIndexesCopy(0)
+	mgr.changedStreamsDuringConverterJob = bitmask.LongBitmask{}
 	go mgr.convertStreamJob(activeConverters, streamsToConvert, indexes, releaser)
 	mgr.converterJobRunning = true
 }
@@ -1619,6 +1626,11 @@ func (mgr *Manager) convertStreamJob(allConverters []*converters.CachedConverter
 				Type:      "converterCompleted",
 				Converter: converter.Statistics(),
 			})
+		}
+		// drop results that were made from the old data of streams that changed while the job was running
+		if !mgr.changedStreamsDuringConverterJob.IsZero() {
+			mgr.invalidateConverters(&mgr.changedStreamsDuringConverterJob)
+			mgr.changedStreamsDuringConverterJob = bitmask.LongBitmask{}
 		}
 		mgr.inheritTagUncertainty()
 		mgr.startTaggingJobIfNeeded()
